@@ -1,5 +1,5 @@
 ENGINES = [
-    {"name": "E1-enum", "path": "/verif/cmd, /verif/internal", "serves_properties": ["C06", "C07", "C08", "C12", "C13", "C16", "C18"],
+    {"name": "E1-enum", "path": "/verif/cmd, /verif/internal", "serves_properties": ["C06", "C07", "C08", "C12", "C13", "C16", "C17", "C18"],
      "kind_free_text": "bounded-exhaustive enumerator over explicit alphabets, every case executed on the real code and judged by a Go reference model"},
 ]
 NOTES = "All checks: ./run.sh <id> quick|thorough rebuilds the harness against /repo's working tree (replace directive) and rewrites evidence/<id>.json. known_findings.json is read-only at run time."
@@ -112,4 +112,11 @@ CHECKS["C07"] = dict(
     technique="enumeration of reference-graph topologies x all subsets of reference sites inlined by an independent inliner, parse results compared structurally; complete list of cycle shapes per component kind",
     text="14 base documents (reference graphs over all 8 component kinds: chains, one target from 2-4 sites under different names / paths / operations / codes, all kinds at once; 5 multi-file topologies incl. relative references through a sub-directory and a back reference into the root) with 75 reference sites; every non-empty subset of a document's sites (all 2^r up to r = 10/14, else all subsets of size <= 2 and >= r-1) is inlined on the raw JSON tree and must parse to the same *openapi.API modulo Ref/location fields, generate iff the referencing document generates, and Expand + re-parse must give an equivalent API. 1-, 2-, 3-cycles of every kind, 8 schema-recursion shapes, cycles across files, reference chains and nestings around the depth limit must end with recursive types / a located infinite-recursion error / an error - never a panic or non-termination (15-minute watchdog; parsing is cubic in nesting depth).",
     note="Trusted: the 60-line inliner and the reflective dump (ignores Ref, Pointer, Locator, yaml nodes). Generated code is checked for successful generation (gofmt-clean), not behaviour; compilation of such packages is C02's. Known finding: Expand drops example values. Random DAGs are replaced by the topology list.",
+)
+
+CHECKS["C17"] = dict(
+    category="exploration", engine="E1-enum",
+    technique="complete product of spelling toggles produced by an independent serializer x base documents, generated bytes compared; single-fault mutants x spellings for diagnostics",
+    text="12 (quick) / ~45 (thorough) base documents (a custom-unmarshaler document with raw numbers 1.0 / 1e3 / 2^63-1 / 2^64 / -0, enums and defaults of every JSON type, every additionalProperties form, patternProperties, x-ogen-* extensions, examples; a third of the schema grammar; corpus specs) are each spelled in all 66 combinations of {JSON compact, JSON indented, YAML block, YAML flow} x {plain-when-safe, single, double quoting} x quoted keys x comments/blank lines x indent 2/4 x document marker x anchors/aliases, by a serializer that shares no code with the YAML library; the generated files must be byte-identical (792 full generations in quick). Invalid half: ~6900 single-fault mutants (15 kinds at every node of 3 documents) x 8 spellings must give the same diagnostic up to positions.",
+    note="Trusted: internal/docmodel (own emitter). Scalars whose type depends on the YAML version (y, yes, on, ...) are quoted in the main run; the plain spelling is a labelled sub-run and a known finding. Diagnostics that differ between runs of one spelling are counted and left to C10. Key order is preserved by construction; random re-spellings are replaced by the complete toggle product.",
 )
